@@ -28,6 +28,7 @@ import (
 	"encoding/json"
 	"fmt"
 	"hash/fnv"
+	"os"
 	"sort"
 	"strings"
 	"sync"
@@ -342,6 +343,9 @@ func run(c *core.Ctx) error {
 			b, _ := json.Marshal(h)
 			if len(b) > 1500 {
 				b = b[:1500]
+			}
+			if d := os.Getenv("C05_DUMP"); d != "" {
+				os.WriteFile(fmt.Sprintf("%s/rejected-%s-%d.ndjson", d, h.Kind, h.Seed), core.NDJSON(h.Events), 0o644)
 			}
 			c.Drift("TLC rejects a recorded %s history (universe %d, seed %d) as a behaviour of TypeContext.tla: %s", h.Kind, h.Universe, h.Seed, b)
 			accepted += vouts[k].bad
